@@ -701,11 +701,18 @@ def ser_narrowing_rule(ctx):
         fl = fn_label(b)
         if not fl.startswith(('ser::', '<ser::')):
             continue
+        seen_spliced = set()
         for bb in sorted(b.live_blocks()):
             if b.is_cleanup(bb):
                 continue
-            for s in b.stmts(bb):
+            for si_, s in enumerate(b.stmts(bb)):
                 if 'assign' in s and s['rv']['k'] == 'cast' and s['rv']['cast'] == 'IntToInt' and const_int(s['rv']['op']) is None and lossy_int_cast(s['rv']['from'], s['rv']['to']):
+                    # one source site spliced into its caller twice is one cast
+                    ib = b.blocks[bb].get('inlined_bb') if bb < len(b.blocks) else None
+                    if ib is not None:
+                        if (ib, si_) in seen_spliced:
+                            continue
+                        seen_spliced.add((ib, si_))
                     n += 1
                     # `enum_value as u8 / usize` of a field-less enum: the discriminant, always in range
                     co = origin(b, s['rv']['op'])
